@@ -381,6 +381,11 @@ func (h *H) sampleQuiet() {
 		if w.RefState != "Running" || h.ctlInProgress(w) {
 			continue
 		}
+		if w.Inflight == 0 && !h.anyCallInProgress() {
+			if n := w.Wk.NumIdleWorkers(); n < 1 {
+				h.viol("C18", "C18.idle-min", "a running worker keeps no idle worker at rest")
+			}
+		}
 		if h.Shape == Gated && !q.GatesOpen && len(h.Ws) == 1 {
 			u, infl := 0, 0
 			for _, jr := range h.Jobs {
